@@ -19,10 +19,10 @@ import trace
 PID = 'C16'
 FAM = {s.sid: s for s in S.family_F() + S.family_one_option()}
 FAM['D1'] = Schema('D1', [
-    Opt('sec', 'a', 'M', sub=[Opt('sec', 'b', 'MT', sub=[Opt('str', 's', '', b'deflt'), Opt('str', 'sl', 'L', [b'p', b'q']), Opt('int', 'n', '', 3),
-                                                         Opt('sec', 'c', 'M', sub=[Opt('str', 'z', '', b'zz'), Opt('float', 'f', 'L', [b'1.5'])])]),
+    Opt('sec', 'a', 'M', sub=[Opt('sec', 'b', 'MT', sub=[Opt('str', 's', 'A', b'deflt'), Opt('str', 'sl', 'LA', [b'p', b'q']), Opt('int', 'n', '', 3),
+                                                         Opt('sec', 'c', 'M', sub=[Opt('str', 'z', 'A', b'zz'), Opt('float', 'f', 'L', [b'1.5'])])]),
                               Opt('str', 't', '', b'tt')]),
-    Opt('str', 'top', '', b'topdef'), Opt('int', 'il', 'L', [b'1', b'2']), Opt('sec', 'kv', 'KM', sub=[Opt('str', 'k0', '', b'v0')])])
+    Opt('str', 'top', 'A', b'topdef'), Opt('int', 'il', 'L', [b'1', b'2']), Opt('sec', 'kv', 'KM', sub=[Opt('str', 'k0', '', b'v0')])])
 WORK = {
     'D1': [b'a { b x { c { } c { } c { z = 1 } } b y { c { f += {2} } } b z { } } a { b x { } } a { } kv { n1 = v } kv { n2 = w } kv { }',
            b'a { } a { } a { b q { c { } c { } c { } } t = u } il += {3} top = 9'],
@@ -111,9 +111,9 @@ def shard_a(sh):
 
 
 # ---- (b) interleavings
-B1 = Schema('B1', [Opt('int', 'i', '', 5), Opt('int', 'il', 'L', [b'1', b'2']), Opt('str', 's', '', b'd'),
+B1 = Schema('B1', [Opt('int', 'i', 'A', 5), Opt('int', 'il', 'L', [b'1', b'2']), Opt('str', 's', '', b'd'),      # A: the declaration carries an annotation
                    Opt('sec', 'mt', 'MT', sub=[Opt('int', 'x', '', 1)]), Opt('sec', 'kv', 'K', sub=[Opt('str', 'k0', '', b'v0')]),
-                   Opt('sec', 'm', 'M', sub=[Opt('int', 'x', '', 1), Opt('str', 'y', '', b'yy'), Opt('int', 'xl', 'L', [b'1'])]),
+                   Opt('sec', 'm', 'M', sub=[Opt('int', 'x', 'A', 1), Opt('str', 'y', '', b'yy'), Opt('int', 'xl', 'L', [b'1'])]),
                    Opt('sec', 'km', 'KM', sub=[Opt('str', 'k0', '', b'v0')])])
 
 
@@ -125,6 +125,7 @@ def ctx_ops(c):
         ['setint %s %s 9' % (c, enc(b'i'))],
         ['addlist %s %s int 1 4' % (c, enc(b'il'))],
         ['setcomment %s %s %s' % (c, enc(b's'), enc(b'note'))],
+        ['setcomment %s %s %s' % (c, enc(b'i'), enc(b'other'))],       # replaces an annotation that came with the declaration
         ['set_vf %s %s 1' % (c, enc(b'i'))],
         ['set_vf %s %s 1' % (c, enc(b'mt|x'))],
         ['cb_fail 1', 'parse_buf %s %s' % (c, enc(b'kv { key = val }'))],
@@ -143,6 +144,7 @@ def inst_ops(c, k):
         ['setstr %s %s %s' % (r, enc(b'y'), enc(b'changed'))],
         ['addlist %s %s int 1 4' % (r, enc(b'xl'))],
         ['setcomment %s %s %s' % (r, enc(b'y'), enc(b'note'))],
+        ['setcomment %s %s %s' % (r, enc(b'x'), enc(b'other'))],
         ['set_vf %s %s 1' % (r, enc(b'x'))],
         ['cb_fail 1', 'parse_buf %s %s' % (r, enc(b'x = 3 xl += {8}'))],
         ['cb_fail 1', 'parse_buf %s/km.%d %s' % (c, k, enc(b'newkey = v'))],
@@ -263,6 +265,67 @@ def shard_b(sh):
     return st.result([drv])
 
 
+# ---- (c) instances created after every earlier one was removed
+def shard_c(sh):
+    """every section instance the schema creates at cfg_init (and those of a first parse) is removed through the API; the
+    workload then creates instances again: each must get the declared sub-options and defaults (reference: the parser model
+    on a store whose section options are empty)"""
+    sid, N, prefixes, deadline = sh
+    import reftext
+    from model import new_store, dump_sec
+    sch = FAM[sid]
+    drv = get_driver('asan')
+    drv.define_schema(sid, sch.spec())
+    st = ShardStats('instances created after removals')
+    secs = [o for o in sch.opts if o.kind == 'sec']
+    alpha = S.alphabet_for(sch)
+    texts = []
+    if N == 0:
+        texts = [t for t in deep_workloads(sch)] + WORK.get(sid, [])
+    else:
+        for prefix in prefixes:
+            for node in trace.e1(sch, 0, alpha, N, prefix):
+                if node.verdict == ACCEPT and node.words and any(it[3] == 'sec' for it in node.res.items):
+                    texts.append(trace.text_of(node.words).encode('latin-1'))
+    rm = []
+    for o in secs:
+        if not o.has('M') and not o.has('N'):
+            rm.append('rmnsec A %s 0' % enc(o.name))
+    for ch in engine.chunks(texts, 200):
+        cases, exps = [], []
+        for t in ch:
+            store = new_store(sch, 0)
+            for o in store.opts:
+                if o.decl.kind == 'sec':
+                    o.values = []
+            m = reftext.meaning(sch, 0, t, store=store)
+            if m.verdict != ACCEPT:
+                continue
+            cases.append(Case(['init A %s 0' % sid] + rm + ['parse_buf A ' + enc(t), 'dump A 0', 'print A', 'free A']))
+            exps.append('dump ' + dump_sec(m.store, 0))
+        for c, r, exp in zip(cases, drv.run(cases), exps):
+            st.evaluations += 1
+            st.transitions += 1
+            st.validated += 1
+            script = 'schema %s %s\n%s' % (sid, sch.spec(), c.script())
+            if r.status in ('crash', 'hang'):
+                st.violation('%s:%s' % (r.status, engine.sanitizer_summary(r.info)), script, '', engine.excerpt(r.info))
+                continue
+            got = r.first('dump ') or ''
+            st.outcome(got)
+            st.nontriv(got)
+            if r.first('r parse_buf') != 'r parse_buf 0' or got != exp:
+                st.violation('instance-created-after-removal-lacks-defaults', script, exp, (r.first('r parse_buf') or '') + ' ' + got)
+            elif not (r.first('hyg ') or '').endswith('CLEAN'):
+                st.violation('unclean:after-removal', script, 'CLEAN', r.first('hyg ') or '')
+        if time.time() > deadline:
+            st.complete = False
+            break
+    if texts and not st.samples:
+        st.samples.append({'schema': sid, 'removed_first': rm, 'workload': texts[0].decode('latin-1')[:200]})
+    return st.result([drv])
+
+
 def main():
     ck = engine.Check(PID)
     if ck.replay:
@@ -273,7 +336,7 @@ def main():
     dl = ck.deadline
     sids = sorted(FAM)
     engine.phase(ck, '(a) declarations freed: deep multi-section workloads, all schemas', shard_a, [(sid, 0, [()], dl) for sid in sids], schemas=len(sids))
-    N = 4 if quick else 6
+    N = 6 if quick else 7
     shards = []
     for sid in [s.sid for s in S.family_F()] + ['D1']:
         sch = FAM[sid]
@@ -282,6 +345,15 @@ def main():
         for ch in engine.chunks(frontier, 3):
             shards.append((sid, N, ch, dl))
     engine.phase(ck, '(a) declarations freed: E1 N=%d workloads' % N, shard_a, shards)
+    with_sec = [sid for sid in sids if any(o.kind == 'sec' and not o.has('K') for o in FAM[sid].opts)]
+    shards = [(sid, 0, [()], dl) for sid in with_sec]
+    for sid in with_sec:
+        sch = FAM[sid]
+        inner, frontier = trace.viable_prefixes(sch, 0, S.alphabet_for(sch), 1)
+        for ch in engine.chunks(frontier, 4):
+            shards.append((sid, 7 if quick else 8, ch, dl))
+    engine.phase(ck, '(c) every initial section instance removed through the API, then instances created again by deep workloads and E1 N=%d texts' % (7 if quick else 8),
+                 shard_c, shards, schemas=len(with_sec))
     L = 2 if quick else 3
     for mode, nops in (('contexts', len(ctx_ops('A'))), ('instances', len(inst_ops('A', 0)))):
         seqs = []
